@@ -26,6 +26,7 @@ func runC05(c *Ctx) {
 	c.ruleWhoArms("R05.3")
 	c.ruleCloseSiblings("R05.4", false)
 	c.ruleResponse("R05.5")
+	c.ruleLastFinisher("R05.6")
 }
 
 func (c *Ctx) ruleCompletionOrder(rule string) {
